@@ -36,6 +36,9 @@ const RATE_RELEASE: f64 = 100_000_000.0;
 /// bound on the first interval (`first_interval_instruction_count.min(100.0)`, 0c1b674); passed to
 /// the model as a parameter — the H4 correspondence compares the first interval exactly
 const FIRST_INTERVAL_CAP: f64 = 100.0;
+/// `ExecutionTimeout::MAX_INTERVAL_INSTRUCTIONS` (aa1a96f): cap on every recomputed interval; passed to
+/// the model as a parameter and checked directly on every observed snapshot
+const MAX_INTERVAL: u64 = 1000;
 
 const PROBE_SCRIPT: &str = "f = |n| (1..=n).fold 0, |a, b| a + b\nx = 0\nfor i in 0..5\n  x += f i\n'{x}:{f 10}'";
 const PROBE_EXPECT: &str = "20:55";
@@ -1302,7 +1305,7 @@ fn parse_h4(s: &str) -> Option<Vec<Snap>> {
 /// (timed-out) poll the reading taken by the probe right after the call (the poller's own reading
 /// is not stored on a timeout; it lies between the deadline and this value).
 fn trace_request(rate_bits: u64, limit_ns: u128, snaps: &[Snap]) -> String {
-    let mut s = format!("trace {:016x} {:016x} {}", rate_bits, FIRST_INTERVAL_CAP.to_bits(), limit_ns);
+    let mut s = format!("trace {:016x} {:016x} {} {}", rate_bits, FIRST_INTERVAL_CAP.to_bits(), MAX_INTERVAL, limit_ns);
     for sn in &snaps[1..] {
         s.push_str(&format!(" {}", if sn.timed_out { sn.probe } else { sn.last }));
     }
@@ -1812,7 +1815,7 @@ fn main() {
                         json!({"what": "hook H4 did not return (poller never reported a timeout within the call budget, or the worker died)",
                                "limit_ms": l, "work_per_call": work, "result": format!("{:?}", r)}),
                     );
-                    reqs.push("new 0000000000000000 0000000000000000 0 0".into());
+                    reqs.push("new 0000000000000000 0000000000000000 0 0 0".into());
                     parsed.push(None);
                 }
             }
@@ -1832,6 +1835,10 @@ fn main() {
                 cx.rep.sample(json!({"limit_ms": l, "work_per_call": work, "request": req, "impl": impl_canon, "model": resp}));
             }
             let last = snaps.last().unwrap();
+            // hypothesis `hfirst` and the cap of bounded_slack_capped, directly: no interval above the cap
+            if snaps.iter().any(|sn| sn.interval > MAX_INTERVAL) {
+                cx.viol_d("C08:interval-above-cap", json!({"what": "ExecutionTimeout used an interval_instructions above MAX_INTERVAL_INSTRUCTIONS (bounded_slack_capped no longer applies)", "limit_ms": l, "work_per_call": work, "impl_trace": impl_canon, "trace_request": req}));
+            }
             // (D1) never early, directly
             if last.timed_out && last.probe < limit_ns {
                 cx.viol_d("C08:never_early", json!({"what": "ExecutionTimeout reported a timeout while the clock read after the call is still below the limit", "limit_ms": l, "work_per_call": work, "impl_trace": impl_canon, "trace_request": req}));
@@ -1883,7 +1890,6 @@ fn main() {
                 "late" => "F-C08-2",
                 "late-slow-instruction" => "F-C08-6",
                 "abort" => "F-C08-7",
-                "late-phase-change" => "F-C08-8",
                 "late-recursion" => "F-C08-5",
                 _ => "",
             };
@@ -1893,11 +1899,11 @@ fn main() {
     {
         let results = pool_run(n_workers, &fixed_witnesses, |w, (_, script, limit, kind)| {
             // kind `hang`: the listed signature is "never returns" (killed after 100 × limit + 1 s)
-            let kill = if kind == "hang" { 100 * limit + 1000 } else if kind.starts_with("late") { 30_000 } else { 8 * limit + 10_000 };
+            let kill = if kind == "hang" { 100 * limit + 1000 } else if kind.starts_with("late") || kind == "within-10x" { 30_000 } else { 8 * limit + 10_000 };
             let r = run_in(w, *limit, script, kill);
             // a too-slow run is repeated once (after a pause: load bursts of concurrent builds)
             match &r {
-                RunRes::Done(o) if !kind.starts_with("late") && o.outcome == "timeout" && too_slow(o, *limit, 1) => {
+                RunRes::Done(o) if !kind.starts_with("late") && kind != "within-10x" && o.outcome == "timeout" && too_slow(o, *limit, 1) => {
                     std::thread::sleep(Duration::from_millis(500));
                     run_in(w, *limit, script, kill)
                 }
@@ -1911,6 +1917,9 @@ fn main() {
             let fails = match r {
                 RunRes::Done(o) => match kind.as_str() {
                     k if k.starts_with("late") => o.outcome != "timeout" || too_slow(o, *limit, 1),
+                    // regression check of a repaired lateness: the old behaviour was ≥ 10 × limit late;
+                    // the bound is far from both, so machine load cannot flip it
+                    "within-10x" => o.outcome != "timeout" || too_slow(o, *limit, 10),
                     _ => o.outcome != "timeout" || !o.trace.is_empty() || too_slow(o, *limit, 1) || o.probe != PROBE_EXPECT,
                 },
                 _ => true,
